@@ -42,7 +42,8 @@ struct QueueEntry {
 };
 
 struct HashWithSeed {
-  HashWithSeed() { hash = 0; }
+  // Not 0: MurmurHash64A of the empty string with seed 0 is 0 again, so an empty first key field would not count.
+  HashWithSeed() { hash = 1; }
   void operator()(util::StringPiece sp) { size_t result = util::MurmurHashNative(sp.data(), sp.size(), hash); hash = result; }
   size_t get_hash() { return hash; }
 
